@@ -56,7 +56,9 @@ NAWs(i) == CASE i = 0 -> WS0 [] i = 1 -> WS1 [] i = 2 -> WSH [] i = 3 -> WSF [] 
 \* display names: none, token, several tokens, quoted, quoted with escapes and , ; < > inside, empty quotes, quoted with a fold
 NADisp(i) == CASE i = 0 -> D_none [] i = 1 -> D_tok [] i = 2 -> D_toks [] i = 3 -> D_q [] i = 4 -> D_qesc [] i = 5 -> D_qempty
                [] i = 6 -> D_qfold
-NNADisp == 6
+               \* a token followed by a quoted string (with escapes), two quoted strings: the value starts at the FIRST of them
+               [] i = 7 -> D_tokq [] i = 8 -> D_qq
+NNADisp == 8
 \* URI texts free of the delimiters; 5, 6 and 7 (";" "?" "," inside, URI parameters named like the header parameters)
 \* only inside angle brackets
 NAUri(i) == CASE i = 1 -> U_sip [] i = 2 -> U_sips [] i = 3 -> U_tel [] i = 4 -> U_x [] i = 5 -> U_params [] i = 6 -> U_comma
